@@ -505,6 +505,11 @@ pub fn framing_variant(rng: &mut Rng, req: &mut Req) -> &'static str {
 
 /// compare echo with expectation; returns violation signature part if wrong
 fn check_echo(case: &Case, resp: &Resp, local: SocketAddr) -> Option<(String, Value)> {
+    check_echo_ex(case, resp, Some(local), false)
+}
+
+/// `h2`: the request context's URI is in absolute form (scheme + authority + target)
+fn check_echo_ex(case: &Case, resp: &Resp, local: Option<SocketAddr>, h2: bool) -> Option<(String, Value)> {
     if resp.status != 200 {
         let body = String::from_utf8_lossy(&resp.body).to_string();
         let tag = case.class.split('|').nth(1).unwrap_or("");
@@ -525,11 +530,18 @@ fn check_echo(case: &Case, resp: &Resp, local: SocketAddr) -> Option<(String, Va
     if meta["method"].as_str() != Some(case.req.method.as_str()) {
         return Some(("C09:request-context:method-differs".into(), json!({"meta": meta})));
     }
-    if meta["uri"].as_str() != Some(case.target.as_str()) {
+    let uri_ok = match meta["uri"].as_str() {
+        Some(u) if h2 => u.ends_with(case.target.as_str()),
+        Some(u) => u == case.target,
+        None => false,
+    };
+    if !uri_ok {
         return Some(("C09:request-context:uri-differs".into(), json!({"meta": meta, "sent": case.target})));
     }
-    if meta["remote"].as_str() != Some(local.to_string().as_str()) {
-        return Some(("C09:request-context:peer-address-differs".into(), json!({"meta": meta, "local": local.to_string()})));
+    if let Some(local) = local {
+        if meta["remote"].as_str() != Some(local.to_string().as_str()) {
+            return Some(("C09:request-context:peer-address-differs".into(), json!({"meta": meta, "local": local.to_string()})));
+        }
     }
     if j["args"] != case.expect {
         // which uid does the body/query/path carry?
@@ -555,6 +567,98 @@ fn check_echo(case: &Case, resp: &Resp, local: SocketAddr) -> Option<(String, Va
     None
 }
 
+/// HTTP/2 (prior knowledge) multiplexing: `tasks` concurrent streams on each of
+/// `conns` connections, driven with hyper's own h2 client.
+fn run_h2(seed: u64, addr: SocketAddr, kinds: &[&'static str], conns: usize, tasks: usize, per_task: usize, tag: &str) -> Report {
+    use http_body_util::{BodyExt, Full};
+    use hyper_util::client::legacy::connect::{HttpConnector, HttpInfo};
+    use hyper_util::client::legacy::Client;
+    use hyper_util::rt::TokioExecutor;
+    let mut rep = Report::new("C09", "E2-echo", "");
+    let rt = match tokio::runtime::Builder::new_multi_thread().worker_threads(4).enable_all().build() {
+        Ok(r) => r,
+        Err(e) => {
+            rep.inconclusive(&format!("h2 client runtime: {e}"));
+            return rep;
+        }
+    };
+    let kinds: Vec<&'static str> = kinds.iter().copied().filter(|k| *k != "multi").collect();
+    let tag = tag.to_string();
+    let reports = rt.block_on(async move {
+        let mut hs = vec![];
+        for c in 0..conns {
+            // one client = one pooled h2 connection
+            let client: Client<HttpConnector, Full<bytes::Bytes>> =
+                Client::builder(TokioExecutor::new()).http2_only(true).build(HttpConnector::new());
+            for t in 0..tasks {
+                let client = client.clone();
+                let kinds = kinds.clone();
+                let tag = tag.clone();
+                hs.push(tokio::spawn(async move {
+                    let mut rep = Report::new("C09", "E2-echo", "");
+                    for k in 0..per_task {
+                        let mut rng = Rng::derive(seed, "c09-h2", (c * 1000 + t) as u64, k as u64);
+                        let case = gen_case(&mut rng, &kinds);
+                        let uri = format!("http://{}{}", addr, case.target);
+                        let mut b = hyper::Request::builder().method(case.req.method.as_str()).uri(&uri);
+                        for (n, v) in &case.req.headers {
+                            b = b.header(n.as_str(), v.as_slice());
+                        }
+                        let req = match b.body(Full::new(bytes::Bytes::from(case.req.body.clone()))) {
+                            Ok(r) => r,
+                            Err(_) => {
+                                // a target the http crate will not carry (generator domain)
+                                rep.inconclusive("h2 client cannot express this request");
+                                continue;
+                            }
+                        };
+                        let r = tokio::time::timeout(Duration::from_secs(30), client.request(req)).await;
+                        let resp = match r {
+                            Ok(Ok(r)) => r,
+                            Ok(Err(e)) => {
+                                rep.inconclusive(&format!("h2 request error: {}", e.to_string().chars().take(50).collect::<String>()));
+                                continue;
+                            }
+                            Err(_) => {
+                                rep.inconclusive("h2 response watchdog");
+                                continue;
+                            }
+                        };
+                        let local = resp.extensions().get::<HttpInfo>().map(|i| i.local_addr());
+                        let status = resp.status().as_u16();
+                        let body = match resp.into_body().collect().await {
+                            Ok(b) => b.to_bytes().to_vec(),
+                            Err(_) => {
+                                rep.inconclusive("h2 body read error");
+                                continue;
+                            }
+                        };
+                        let fake = Resp { version: "HTTP/2".into(), status, reason: String::new(), headers: vec![], body, framing: "h2", chunks: 0 };
+                        rep.eval(format!("{}|h2|streams{}|{tag}", case.class, tasks.min(64)));
+                        rep.count("h2_responses", 1);
+                        if let Some((sig, detail)) = check_echo_ex(&case, &fake, local, true) {
+                            rep.violate(sig, json!({"seed": seed, "transport": "h2", "connection": c, "stream_task": t, "index": k,
+                                "kind": case.kind, "target": case.target, "detail": detail}));
+                        }
+                    }
+                    rep
+                }));
+            }
+        }
+        let mut out = vec![];
+        for h in hs {
+            if let Ok(r) = h.await {
+                out.push(r);
+            }
+        }
+        out
+    });
+    for r in reports {
+        rep.merge(r);
+    }
+    rep
+}
+
 pub struct Work {
     pub threads: usize,
     pub batches: usize,
@@ -570,8 +674,8 @@ pub fn run(seed: u64, w: &Work) -> Report {
          urlencoded, raw, streaming and multipart bodies); values generated per type (any Unicode incl. astral/controls/reserved, \
          numeric extremes, -0.0/subnormals), encoded with a randomly chosen legal encoding (per-byte percent-encoding with mixed hex \
          case, + vs %20, pair order, JSON whitespace/key order/\\u escapes, quoted/unquoted multipart boundary) and framing \
-         (content-length or chunked with random chunk sizes, TCP writes split at random offsets, pipelining depth 1-8) on many \
-         concurrent keep-alive connections against tokio worker counts 1/2/4/16; the echo (typed args + method, URI, uid header, peer \
+         (content-length or chunked with random chunk sizes, TCP writes split at random offsets, pipelining depth 1-8; the same generators as HTTP/2 streams \
+         multiplexed on two connections by hyper's h2 client) on many concurrent keep-alive connections against tokio worker counts 1/2/4/16; the echo (typed args + method, URI, uid header, peer \
          address) must equal what was sent; class = (kind, value classes, framing, pipeline depth)",
     );
     let log = EvLog::new();
@@ -701,6 +805,9 @@ pub fn run(seed: u64, w: &Work) -> Report {
             for h in hs {
                 rep.merge(h.join().expect("client thread"));
             }
+            // the same value/encoding generators over HTTP/2: many streams multiplexed
+            // on few connections
+            rep.merge(run_h2(seed ^ workers as u64, addr, &w.kinds, 2, w.threads.min(32), (w.batches / 4).max(8), mode_tag));
             let _ = srv.close();
         }
     }
